@@ -766,7 +766,9 @@ func c14Web(c *Ctx) {
 		return
 	}
 	defer fx.Close()
-	keys := []string{"x-a", "x-b", "x-c-bin", "x-d", "x-long-key-name", "x-e-bin"}
+	// names that begin with letters of "Trailer:" (the prefix under which handler trailers wait in the
+	// header map), with a digit, a dash-free name, one that contains "-bin" in the middle
+	keys := []string{"x-a", "x-b", "x-c-bin", "x-d", "x-long-key-name", "x-e-bin", "trace-id", "tier", "ttl-bin", "traceparent", "rate", "eta", "item-bin", "link-id", "a", "x-bin-version", "3d"}
 	genMD := func() metadata.MD {
 		md := metadata.MD{}
 		for n := c.Rng.Intn(4); n > 0; n-- {
